@@ -88,17 +88,6 @@ func (b *payPerInterval) OnUpdate(node store.Node, peers []store.Node) (store.Ba
 		total.Add(total, credit)
 	}
 
-	// If this comparison is in the wrong place, it could make the pool
-	// insolvent. On the other hand, if we compare too early, then the client
-	// could get into a loop where it disconnects due to low balance, connects
-	// successfully, repeat.
-	if b.MinBalance != nil && b.MinBalance.Cmp(total) > 0 {
-		return store.Balance{}, LowBalanceError{
-			CurrentBalance: total,
-			MinBalance:     b.MinBalance,
-		}
-	}
-
 	if err := b.Store.AddNodeBalance(node.ID, new(big.Int).Neg(total)); err != nil {
 		return store.Balance{}, err
 	}
@@ -107,5 +96,21 @@ func (b *payPerInterval) OnUpdate(node store.Node, peers []store.Node) (store.Ba
 		return balance, err
 	}
 
-	return b.Store.GetNodeBalance(node.ID)
+	// If this comparison is in the wrong place, it could make the pool
+	// insolvent. On the other hand, if we compare too early, then the client
+	// could get into a loop where it disconnects due to low balance, connects
+	// successfully, repeat.
+	// The peers were credited above, so the client has to be charged before
+	// we compare what it has left with the minimum.
+	if b.MinBalance != nil {
+		remaining := new(big.Int).Add(&balance.Credit, &balance.Deposit)
+		if b.MinBalance.Cmp(remaining) > 0 {
+			return store.Balance{}, LowBalanceError{
+				CurrentBalance: remaining,
+				MinBalance:     b.MinBalance,
+			}
+		}
+	}
+
+	return balance, nil
 }
